@@ -69,6 +69,24 @@ func vH_C13_step() {
 				vAssert("canon:depth", seen[i].depth == vCanonicalDepth(pre.m, i))
 			}
 		}
+		// the depth reported by a partial visit is the same true depth
+		if vParam("partial") == 0 {
+			vCover("canonical-checked")
+			vCover("done")
+			return
+		}
+		tgt := vKeyArg("partial-target", cfg.klen)
+		idx := 0
+		err = pre.c.VisitItemsAscendEx(tgt, false, func(it *Item, d uint64) bool {
+			for idx < len(pre.m.ents) && !vBytesEq(pre.m.ents[idx].key, it.Key) {
+				idx++
+			}
+			if idx < len(pre.m.ents) {
+				vAssert("canon:depth-partial-visit", d == vCanonicalDepth(pre.m, idx))
+			}
+			return true
+		})
+		vAssert("canon:partial-visit-noerr", err == nil)
 		vCover("canonical-checked")
 	}
 	if pre.f != nil && vParam("decode") == 1 {
